@@ -31,7 +31,19 @@ func (o goSliceObject) getValue(index int64) (reflect.Value, bool) {
 	return reflect.Value{}, false
 }
 
+// writeBack stores a slice header that setLength/setValue replaced into the Go
+// variable it was read from when that is addressable (a slice FIELD of a struct
+// bridged by pointer): otherwise push/length on o.Field.L changed a temporary.
+func (o *goSliceObject) writeBack(slot reflect.Value) {
+	if slot.CanSet() {
+		slot.Set(o.value)
+		o.value = slot
+	}
+}
+
 func (o *goSliceObject) setLength(value Value) {
+	defer o.writeBack(o.value)
+
 	want, err := value.ToInteger()
 	if err != nil {
 		panic(err)
@@ -54,6 +66,8 @@ func (o *goSliceObject) setLength(value Value) {
 }
 
 func (o *goSliceObject) setValue(rt *runtime, index int64, value Value) bool {
+	defer o.writeBack(o.value)
+
 	reflectValue, err := value.toReflectValue(o.value.Type().Elem())
 	if err != nil {
 		panic(rt.panicStoreError(err))
